@@ -21,6 +21,13 @@ def _t(x):
     return x
 
 
+def _ring(x):
+    """Answers that are documented as lists (something that can be indexed and has an order): an unordered container is not one."""
+    if isinstance(x, (set, frozenset, dict)):
+        return ["<answer is an unordered %s, not a list>" % type(x).__name__]
+    return _t(x)
+
+
 def probes(ref, rng):
     """Argument lists used by the script, derived from the face list only (identical for every query order)."""
     F = ref.F
@@ -92,18 +99,18 @@ def script(P):
     S.append(over("opposite_face", P["triples"], lambda m, u, v, f: m.connectivity.opposite_face(u, v, f)))
     S.append(over("opposite_face_inds", P["triples"], lambda m, u, v, f: m.connectivity.opposite_face(u, v, f, True)))
     S.append(over("common_edge", P["fpairs"], lambda m, f, g: m.connectivity.common_edge(f, g)))
-    S.append(("vertex_to_vertices", lambda m: [_t(m.connectivity.vertex_to_vertices(v)) for v in range(len(m.vertices))]))
-    S.append(("vertex_to_edges", lambda m: [_t(m.connectivity.vertex_to_edges(v)) for v in range(len(m.vertices))]))
-    S.append(("vertex_to_faces", lambda m: [_t(m.connectivity.vertex_to_faces(v)) for v in range(len(m.vertices))]))
-    S.append(("vertex_to_corners", lambda m: [_t(m.connectivity.vertex_to_corners(v)) for v in range(len(m.vertices))]))
+    S.append(("vertex_to_vertices", lambda m: [_ring(m.connectivity.vertex_to_vertices(v)) for v in range(len(m.vertices))]))
+    S.append(("vertex_to_edges", lambda m: [_ring(m.connectivity.vertex_to_edges(v)) for v in range(len(m.vertices))]))
+    S.append(("vertex_to_faces", lambda m: [_ring(m.connectivity.vertex_to_faces(v)) for v in range(len(m.vertices))]))
+    S.append(("vertex_to_corners", lambda m: [_ring(m.connectivity.vertex_to_corners(v)) for v in range(len(m.vertices))]))
     S.append(("is_vertex_on_border", lambda m: [_t(m.is_vertex_on_border(v)) for v in range(len(m.vertices))]))
     S.append(over("vertex_to_corner_in_face", P["vf"], lambda m, v, f: m.connectivity.vertex_to_corner_in_face(v, f)))
     S.append(over("in_face_index", P["vf"], lambda m, v, f: m.connectivity.in_face_index(f, v)))
-    S.append(("face_to_vertices", lambda m: [_t(m.connectivity.face_to_vertices(f)) for f in range(len(m.faces))]))
-    S.append(("face_to_edges", lambda m: [_t(m.connectivity.face_to_edges(f)) for f in range(len(m.faces))]))
+    S.append(("face_to_vertices", lambda m: [_ring(m.connectivity.face_to_vertices(f)) for f in range(len(m.faces))]))
+    S.append(("face_to_edges", lambda m: [_ring(m.connectivity.face_to_edges(f)) for f in range(len(m.faces))]))
     S.append(("face_to_first_corner", lambda m: [_t(m.connectivity.face_to_first_corner(f)) for f in range(len(m.faces))]))
-    S.append(("face_to_corners", lambda m: [_t(m.connectivity.face_to_corners(f)) for f in range(len(m.faces))]))
-    S.append(("face_to_faces", lambda m: [_t(m.connectivity.face_to_faces(f)) for f in range(len(m.faces))]))
+    S.append(("face_to_corners", lambda m: [_ring(m.connectivity.face_to_corners(f)) for f in range(len(m.faces))]))
+    S.append(("face_to_faces", lambda m: [_ring(m.connectivity.face_to_faces(f)) for f in range(len(m.faces))]))
     S.append(("edge_to_vertices", lambda m: [_t(m.connectivity.edge_to_vertices(e)) for e in range(len(m.edges))]))
     S.append(("other_edge_end", lambda m: [[_t(m.connectivity.other_edge_end(e, m.edges[e][0])), _t(m.connectivity.other_edge_end(e, m.edges[e][1])),
                                             _t(m.connectivity.other_edge_end(e, -7))] for e in range(len(m.edges))]))
